@@ -122,7 +122,8 @@ def C11(tier, seed):
             drivers += hist_jobs(f"hist_rw_{tk}_", seed, 4, 4, 200, tk, ["--rewards", "1"])
         else:
             drivers += hist_jobs(f"hist_rw_{tk}_", seed, 8, 40, 300, tk, ["--rewards", "1"])
-    return {"active": ["C11"], "drivers": drivers, "models": [],
+    models = [mc("MC_Rewards", tier, "MC_Rewards"), {"name": "MC_Rewards_cov", "module": "MC_Rewards", "cfg": "MC_Rewards_cov.cfg", "timeout": 600, "workers": 1}]
+    return {"active": ["C11"], "drivers": drivers, "models": models,
             "must_exercise": {"set_reward_emissions": 5, "collect_reward": 5, "initialize_reward": 3, "update_fees_and_rewards": 10, "swap": 20},
             "explanation": "AccrueRewards (floor(dt*emissions/liquidity), nothing at zero liquidity / uninitialized / 128-bit overflow, timestamp monotone) checked on every instruction; "
                            "reward share ledgers (upper bound, bounded-rounding lower bound, dropped credits relax the lower bound only); collect = min(owed, vault); "
